@@ -86,6 +86,119 @@ func fieldLoadOf(typ, name string) func(ssa.Value) bool {
 type rejGuard struct {
 	iff      *ssa.If
 	passEdge int // successor index that continues
+	// in: the function the guard lives in; at: for a guard inside a validation helper, the call of that helper in
+	// the analysed function (the guard "passes before X" when the helper's success edge does)
+	in      *ssa.Function
+	at      *ssa.Call
+	partial bool
+}
+
+// cond: the guard's condition with `!x`, `true == x` stripped, and whether the rejecting edge is the one on which
+// the stripped condition is true.
+func (g rejGuard) cond() (ssa.Value, bool) {
+	n := Guard{Cond: g.iff.Cond, Pol: g.passEdge == 1}.norm() // Pol: the condition's value on the rejecting edge
+	return n.Cond, n.Pol
+}
+
+// facts: what is known to hold when the guard rejects (short-circuit values decomposed).
+func (g rejGuard) facts() []Guard {
+	c, pol := g.cond()
+	var out []Guard
+	for _, x := range expandGuards([]Guard{{Cond: c, Pol: pol, If: g.iff}}) {
+		out = append(out, x.norm())
+	}
+	return out
+}
+
+// validatorGuards: the rejecting guards of the package-local helpers of f whose error result is tested in f
+// (files, length, err := torfiles(&info); if err != nil { return err }): a guard that every succeeding return of the
+// helper has passed counts as a guard of f located at the call.
+func validatorGuards(p *Prog, f *ssa.Function, depth int) []rejGuard {
+	var out []rejGuard
+	if depth > 2 {
+		return nil
+	}
+	ne := newNilEnv(p)
+	for _, ci := range callsIn(f) {
+		c, ok := ci.(*ssa.Call)
+		if !ok || c.Call.IsInvoke() {
+			continue
+		}
+		h := c.Call.StaticCallee()
+		if h == nil || h.Blocks == nil || funcPkgPath(h) != funcPkgPath(f) || h == f {
+			continue
+		}
+		res := h.Signature.Results()
+		if res.Len() == 0 || !isErrorType(res.At(res.Len()-1).Type()) {
+			continue
+		}
+		var succ []*ssa.Return
+		for _, ret := range returnsOf(h) {
+			rr := retResults(ret)
+			if ne.At(rr[len(rr)-1], ret.Block()) != NonNil {
+				succ = append(succ, ret)
+			}
+		}
+		hg := append(rejectingGuards(p, h), validatorGuards(p, h, depth+1)...)
+		for _, g := range hg {
+			all := len(succ) > 0
+			for _, ret := range succ {
+				if !g.passesBefore(ret) {
+					all = false
+				}
+			}
+			g2 := g
+			if g2.at == nil || g2.in != f {
+				g2.at = c
+			}
+			// a guard that not every succeeding return has passed (it protects one branch of the helper only)
+			// is still listed, for rules that ask whether a rejection exists at all; it never "passes before"
+			// anything in the caller
+			g2.partial = g.partial || !(all || g.perItem())
+			out = append(out, g2)
+		}
+	}
+	return out
+}
+
+// perItem: the guard sits in a loop of its function (a per-file check): it does not dominate the returns, but it is
+// still a guard of the helper; rules that need it check dominance against the use inside the same loop.
+func (g rejGuard) perItem() bool {
+	for _, l := range naturalLoops(g.iff.Parent()) {
+		if l.Blocks[g.iff.Block()] {
+			return true
+		}
+	}
+	return false
+}
+
+// passesBefore: the guard's passing edge lies before instruction x: in the guard's own function by dominance; for a
+// guard inside a validation helper and x in the caller, when the helper's success edge dominates x.
+func (g rejGuard) passesBefore(x ssa.Instruction) bool {
+	if x.Parent() == g.iff.Parent() {
+		return guardPassesBefore(g, x)
+	}
+	if g.at == nil || g.at.Parent() != x.Parent() || g.partial {
+		return false
+	}
+	// the call's error result is tested nil on the way to x
+	for _, gd := range guardsOf(x.Block()) {
+		v, isNil, ok := nilFact(gd)
+		if !ok || !isNil {
+			continue
+		}
+		switch y := v.(type) {
+		case *ssa.Call:
+			if y == g.at {
+				return true
+			}
+		case *ssa.Extract:
+			if y.Tuple == ssa.Value(g.at) {
+				return true
+			}
+		}
+	}
+	return false
 }
 
 func rejectingGuards(p *Prog, f *ssa.Function) []rejGuard {
@@ -117,9 +230,9 @@ func rejectingGuards(p *Prog, f *ssa.Function) []rejGuard {
 		}
 		t, e := errReturn(b.Succs[0]), errReturn(b.Succs[1])
 		if t && !e {
-			out = append(out, rejGuard{iff, 1})
+			out = append(out, rejGuard{iff: iff, passEdge: 1, in: f})
 		} else if e && !t {
-			out = append(out, rejGuard{iff, 0})
+			out = append(out, rejGuard{iff: iff, passEdge: 0, in: f})
 		}
 	}
 	return out
@@ -162,7 +275,7 @@ func c13R1(r *Report, rule string) {
 		r.Fail(rule, "MetadataComplete/publication-point", mc.Pos(), "(*Torrent).MetadataComplete no longer calls Pieces.MetadataComplete")
 		return
 	}
-	gs := rejectingGuards(p, mc)
+	gs := append(rejectingGuards(p, mc), validatorGuards(p, mc, 0)...)
 	chunk, _ := chunkSizeConst(p)
 	pieceLen := fieldLoadOf("BInfo", "PieceLength")
 	pieces := fieldLoadOf("BInfo", "Pieces")
@@ -185,11 +298,22 @@ func c13R1(r *Report, rule string) {
 	// the use of a file's length: the accumulation `length += f.Length`
 	fileLenUse := func() ssa.Instruction {
 		var u ssa.Instruction
-		allInstrs(mc, func(in ssa.Instruction) {
-			if bo, ok := in.(*ssa.BinOp); ok && bo.Op == token.ADD && mentions(bo.Y, flen, 0) {
-				u = in
+		fs := []*ssa.Function{mc}
+		for _, g := range gs {
+			if g.in != nil && g.in != mc {
+				fs = append(fs, g.in)
 			}
-		})
+		}
+		for _, f := range fs {
+			if u != nil {
+				break
+			}
+			allInstrs(f, func(in ssa.Instruction) {
+				if bo, ok := in.(*ssa.BinOp); ok && bo.Op == token.ADD && mentions(bo.Y, flen, 0) {
+					u = in
+				}
+			})
+		}
 		return u
 	}
 	reqs := []req{
@@ -214,7 +338,8 @@ func c13R1(r *Report, rule string) {
 			}, 0)
 		}, nil},
 		{"G3-piece-length-nonzero", "piece length != 0 is required", "no rejecting guard makes the piece length non-zero before publication: `piece length` 0 passes the multiple-of-16KiB test and Pieces.MetadataComplete divides by it (integer divide by zero from a .torrent file or from authentic magnet metadata)", func(g rejGuard) bool {
-			bo, ok := g.iff.Cond.(*ssa.BinOp)
+			c, rejOnTrue := g.cond()
+			bo, ok := c.(*ssa.BinOp)
 			if !ok {
 				return false
 			}
@@ -226,19 +351,19 @@ func c13R1(r *Report, rule string) {
 				return false // that is G2
 			}
 			// rejecting when == 0 (or <= 0)
-			rejOnTrue := g.passEdge == 1
 			return (bo.Op == token.EQL && rejOnTrue) || (bo.Op == token.NEQ && !rejOnTrue) || (bo.Op == token.LEQ && rejOnTrue) || (bo.Op == token.GTR && !rejOnTrue)
 		}, nil},
 		{"G5-file-length-nonnegative", "every file length >= 0 is required", "no rejecting guard on f.Length < 0 precedes the use of a file's length: negative lengths give overlapping, non-monotonic file offsets that still sum to a plausible total", func(g rejGuard) bool {
-			bo, ok := g.iff.Cond.(*ssa.BinOp)
+			c, rejOnTrue := g.cond()
+			bo, ok := c.(*ssa.BinOp)
 			if !ok || !cmpZero(bo, flen) {
 				return false
 			}
-			rejOnTrue := g.passEdge == 1
 			return (bo.Op == token.LSS && rejOnTrue) || (bo.Op == token.GEQ && !rejOnTrue)
 		}, fileLenUse},
 		{"G6-path-nonempty", "every file has a path", "no rejecting guard on an empty file path precedes the use of the file", func(g rejGuard) bool {
-			bo, ok := g.iff.Cond.(*ssa.BinOp)
+			c, _ := g.cond()
+			bo, ok := c.(*ssa.BinOp)
 			if !ok || !isNilConst(bo.Y) {
 				return false
 			}
@@ -315,7 +440,7 @@ func c13R1(r *Report, rule string) {
 		}
 		found := false
 		for _, g := range gs {
-			if rq.match(g) && guardPassesBefore(g, at) {
+			if rq.match(g) && g.passesBefore(at) {
 				found = true
 			}
 		}
@@ -329,15 +454,16 @@ func c13R1(r *Report, rule string) {
 	// G4 exclusivity: rejecting guards on Files != nil and Files == nil
 	var sawNonNil, sawNil bool
 	for _, g := range gs {
-		bo, ok := g.iff.Cond.(*ssa.BinOp)
-		if !ok || !isNilConst(bo.Y) || !mentions(bo.X, files, 0) {
-			continue
-		}
-		rejOnTrue := g.passEdge == 1
-		if (bo.Op == token.NEQ) == rejOnTrue {
-			sawNonNil = true // rejects when files != nil
-		} else {
-			sawNil = true
+		for _, fct := range g.facts() {
+			x, isNil, ok := nilFact(fct)
+			if !ok || !mentions(x, files, 0) {
+				continue
+			}
+			if isNil {
+				sawNil = true // rejects when files == nil
+			} else {
+				sawNonNil = true // rejects when files != nil
+			}
 		}
 	}
 	r.Check(sawNonNil && sawNil, rule, "MetadataComplete/G4-length-files-exclusive", mc.Pos(), "both 'length and files' and 'neither length nor files' are rejected", "the exclusivity of `length` and `files` is no longer enforced in both directions")
